@@ -186,8 +186,9 @@ theorem recvData_ctl (c : H2Conn) (sid len : Nat) (pad : Option Nat) (es : Bool)
         · exact connWinUpd_ctl _ _
         · split
           · exact AllCtl.nil
-          · simp only
-            exact ite_res_ctl _ _ _ (sendGoaway_ctl _ _) AllCtl.nil
+          · split
+            · exact AllCtl.nil
+            · exact sendGoaway_ctl _ _
       · exact recvDataStream_ctl _ _ _ _ _ _
 
 theorem refuseStream_ctl (c : H2Conn) (sid : Nat) : AllCtl (refuseStream c sid).2 := by
@@ -338,8 +339,9 @@ theorem recvData_len (c : H2Conn) (sid len : Nat) (pad : Option Nat) (es : Bool)
         · simp
         · split
           · rfl
-          · simp only
-            split <;> simp
+          · split
+            · rfl
+            · simp
       · exact recvDataStream_len _ _ _ _ _ _
 
 theorem recvWindowUpdate_len (c : H2Conn) (sid len inc : Nat) :
